@@ -191,6 +191,58 @@ func declaredItems(w *world.World, cl Call) string {
 	return strings.Join(out, " ")
 }
 
+// parseErrorNear reports whether a parse error touches the top-level item holding the cursor
+// (what the parser recovers there - and so where the cursor "is" - is not decided then).
+func parseErrorNear(hf *hcl.File, off int) bool {
+	_, diags := hclsyntax.ParseConfig(hf.Bytes, "x.tf", hcl.InitialPos)
+	if !diags.HasErrors() {
+		return false
+	}
+	body, ok := hf.Body.(*hclsyntax.Body)
+	if !ok {
+		return true
+	}
+	lo, hi := 0, len(hf.Bytes)
+	found := false
+	for _, a := range body.Attributes {
+		if r := a.Range(); off >= r.Start.Byte && off <= r.End.Byte {
+			lo, hi, found = r.Start.Byte, r.End.Byte, true
+		}
+	}
+	for _, b := range body.Blocks {
+		if r := b.Range(); off >= r.Start.Byte && off <= r.End.Byte {
+			lo, hi, found = r.Start.Byte, r.End.Byte, true
+		}
+	}
+	if !found {
+		return true
+	}
+	for _, d := range diags {
+		if d.Subject == nil || (d.Subject.Start.Byte <= hi && d.Subject.End.Byte >= lo) {
+			return true
+		}
+	}
+	return false
+}
+
+// placeKind classifies the cursor on the parser's AST (attrName, attrValue, bodyWhitespace ...).
+func placeKind(w *world.World, cl Call) string {
+	pm := w.M.Paths[cl.Path]
+	pc := w.Reader.Ctx(pm.Path)
+	if pc == nil || pc.Files[cl.File] == nil || pm.Schema == nil {
+		return "?"
+	}
+	body, ok := pc.Files[cl.File].Body.(*hclsyntax.Body)
+	if !ok {
+		return "?"
+	}
+	loc := refmodel.Locate(pm.Schema, body, cl.Byte)
+	if loc.Kind == "attrValue" && loc.Attr != nil {
+		return "attrValue:" + loc.Attr.Name
+	}
+	return loc.Kind
+}
+
 func (cc *c06Checker) probeLeftOut(cl Call, text string, cands lang.Candidates) {
 	// typing next to an existing identifier would change that identifier (and so
 	// what is declared); only probe where the new character stands alone
@@ -225,8 +277,14 @@ func (cc *c06Checker) probeLeftOut(cl Call, text string, cands lang.Candidates) 
 		if declaredItems(cc.w, cl) != declaredItems(w2, cl) {
 			continue
 		}
+		// ... nor what kind of place the cursor is in: behind a half-typed operator (`a = c ? 1 : `)
+		// the parser keeps only `c` as the value, so the cursor is in the body; one more character
+		// completes the conditional and puts the cursor inside a value
 		c2 := cl
 		c2.Byte++
+		if k1, k2 := placeKind(cc.w, cl), placeKind(w2, c2); !(k1 == k2 || (k1 == "bodyWhitespace" && (k2 == "attrName" || k2 == "blockType"))) {
+			continue
+		}
 		res := Exec(w2, w2.Decoder(), c2)
 		if res.Panic != nil || res.Err != nil {
 			continue
@@ -352,7 +410,7 @@ func checkC06(c C06Case) Result {
 						if loc.Kind == "attrValue" && loc.BC != nil && loc.BC.Schema != nil && !loc.BC.Undetermined {
 							if a, ok := loc.BC.Schema.Attrs[loc.Attr.Name]; ok && registeredStringHook(a, c.World.Ctx) &&
 								!(loc.BC.Schema.Ext != nil && (loc.Attr.Name == "count" || loc.Attr.Name == "for_each")) &&
-								off >= loc.Attr.Expr.Range().Start.Byte {
+								off >= loc.Attr.Expr.Range().Start.Byte && !parseErrorNear(hf, off) {
 								cc.stats.hookLists++
 								r.Fail("complete-with-hooks", "%s: list marked complete although attribute %q has completion hooks that may add more", cl, loc.Attr.Name)
 							}
